@@ -768,9 +768,14 @@ ASSUMPTIONS = ["allocation never fails (OOM paths belong to C18)",
                "array slots at or beyond `cardinality` are never read by the C code and are not modelled"]
 
 PARTS = {
-    "C08": dict(coq_props=["Properties_C08_bitmap"], files=FILES, rule=RULE_C08, generate=generate_C08,
-                oracles={"bm_ops": o_ops_c08}, classify=classify, search=search,
-                assumptions=ASSUMPTIONS, configs_quick=["pinned", "O0"]),
+    "C08": dict(coq_props=["Properties_C08_bitmap", "Properties_C08_bitmap_src"], files=FILES, rule=RULE_C08,
+                generate=generate_C08, oracles={"bm_ops": o_ops_c08}, classify=classify, search=search,
+                assumptions=ASSUMPTIONS, configs_quick=["pinned", "O0"],
+                trusted_base=["gen/c2coq.py + CSem.v for the *_src theorems (C-to-Gallina translator, clang 14 typed AST "
+                              "-> coq/gen/Src_leaf_bitmap.v via gen/c2coq_leaf.py: bitmapContains_/bitmapSet_/bitmapClear_ "
+                              "regenerated from the current source on every run; subset and assumptions in the "
+                              "translator's docstring; the `uint8_t *bits` object is a byte list); the renderings are "
+                              "tied to the compiled C by the translator, not by proof"]),
     "C14": dict(coq_props=["Properties_C14_bitmap"], files=FILES, rule=RULE_C14, generate=generate_C14,
                 oracles={"bm_ops": o_ops_c14}, classify=classify, search=search,
                 assumptions=ASSUMPTIONS, configs_quick=["pinned", "O0"]),
